@@ -24,6 +24,7 @@ import (
 //	[ ... ]           the handshake messages in between share one record
 //	{ ... }           the records in between share one datagram (one transport write)
 //	RAW:<hex>         raw bytes on the transport
+//	~<KIND>           that handshake message with the message_seq of the message before it, kept out of the transcript
 //
 // receive side:
 //
@@ -112,6 +113,18 @@ func (p *Peer) Run(o *Opts, ops []string) *Outcome {
 		case op == "HREQ":
 			// a HelloRequest (handshake type 0, no body): not a TLCP message, not part of any transcript
 			err = p.SendMsg(0, nil, true)
+		case strings.HasPrefix(op, "~"):
+			// a message as somebody on the path would slip it in: it re-uses the message_seq of the message sent before
+			// it and is not part of this side's transcript (only for kinds that carry no key material)
+			seq, tl := p.MsgSeq, len(p.Transcript)
+			if p.MsgSeq > 0 {
+				p.MsgSeq--
+			}
+			err = p.sendKind(o, op[1:])
+			p.MsgSeq = seq
+			if len(p.Transcript) > tl {
+				p.Transcript = p.Transcript[:tl]
+			}
 		case op == "{":
 			// everything sent up to the matching "}" travels in ONE datagram / transport write
 			g, ok := p.T.(*gatherT)
